@@ -1,4 +1,5 @@
 import DtsVerif.AuditCmd
+import DtsVerif.Props.C14
 import DtsVerif.Props.C15
 import DtsVerif.Props.C16
 import DtsVerif.Props.C20
